@@ -200,3 +200,58 @@ func thmMarshalIsWrite(b *BED, x int) {
 	}
 	_, _, _ = t, err, err2
 }
+
+//@ theorem C04.readerIsRead
+//@   props C04 C06
+//@   use-view line
+//@   requires len(x) > 0 && x[0] != '#'
+//@   requires forall j int :: 0 <= j && j < len(x) ==> x[j] != 10 && x[j] != 13
+//@   requires bedOK(x, 0)
+//@   loop 1
+//@     invariant n == K && (n > 0 ==> e2 == Z1[0].1 && same(g2, Z1[0].0))
+// The public Reader yields what reader.read returns: for a stream that is one
+// acceptable record line x (LF-terminated), reader.read returns a record, Reader
+// yields exactly one item, without error, and the two records are equal field by
+// field (both stand in the relation bedRec to the same line). With C04.roundtrip
+// (Write then reader.read reproduces the record) this is the round trip through
+// the public API.
+func thmReaderIsRead(x string) {
+	b1 := &bytes.Buffer{}
+	fmt.Fprintf(b1, "%s\n", x)
+	b2 := &bytes.Buffer{}
+	fmt.Fprintf(b2, "%s\n", x)
+	//@ assert len(b2.out) == len(x) + 1 && b2.out[len(x)] == 10
+	//@ assert lnN(arr(b2.out), len(b2.out)) >= 1
+	//@ assert lnT(arr(b2.out), len(b2.out), 0) == len(x) && lnE(arr(b2.out), len(b2.out), 0) == len(x)
+	//@ assert lnN(arr(b2.out), len(b2.out)) == 1
+	//@ assert !bskip(arr(b2.out), len(b2.out), 0)
+	//@ assert mark(0) && mark(1) && bst(arr(b2.out), len(b2.out), 0) == 0
+	//@ assert bnx(arr(b2.out), len(b2.out), 0) == 0
+	//@ assert bst(arr(b2.out), len(b2.out), 1) == 1 && bnx(arr(b2.out), len(b2.out), 1) == 1
+	//@ assert splitN(x, 9) >= 1 && x == lnStr(arr(b2.out), len(b2.out), 0)
+	g1, e1 := newReader(b1).read()
+	//@ assert line == x
+	//@ assert e1 == nil && g1 != nil
+	var g2 *BED
+	var e2 error
+	n := 0
+	for g, err := range Reader(b2) {
+		if n == 0 {
+			g2, e2 = g, err
+		}
+		n++
+	}
+	//@ assert len(Z1) > 0 ==> Z1[0].1 == nil
+	//@ assert len(Z1) > 1 ==> Z1[1].1 == nil || Z1[1].1 != nil
+	//@ assert len(Z1) <= 1
+	//@ assert n == 1 && e2 == nil && g2 != nil
+	//@ assert bedRec(g2.N, g2.Chrom, g2.ChromStart, g2.ChromEnd, g2.Name, g2.Score, g2.Strand, g2.ThickStart, g2.ThickEnd, g2.ItemRGB, g2.BlockCount, rawarr(g2.BlockSizes), offset(g2.BlockSizes), len(g2.BlockSizes), rawarr(g2.BlockStarts), offset(g2.BlockStarts), len(g2.BlockStarts), x)
+	//@ assert bedRec(g1.N, g1.Chrom, g1.ChromStart, g1.ChromEnd, g1.Name, g1.Score, g1.Strand, g1.ThickStart, g1.ThickEnd, g1.ItemRGB, g1.BlockCount, rawarr(g1.BlockSizes), offset(g1.BlockSizes), len(g1.BlockSizes), rawarr(g1.BlockStarts), offset(g1.BlockStarts), len(g1.BlockStarts), x)
+	//@ assert g1.N == g2.N && g1.Chrom == g2.Chrom && g1.ChromStart == g2.ChromStart && g1.ChromEnd == g2.ChromEnd
+	//@ assert g1.Name == g2.Name && g1.Score == g2.Score && g1.Strand == g2.Strand
+	//@ assert g1.ThickStart == g2.ThickStart && g1.ThickEnd == g2.ThickEnd && g1.BlockCount == g2.BlockCount
+	//@ assert forall k int :: 0 <= k && k < 3 ==> g1.ItemRGB[k] == g2.ItemRGB[k]
+	//@ assert len(g1.BlockSizes) == len(g2.BlockSizes) && forall k int :: 0 <= k && k < len(g1.BlockSizes) ==> g1.BlockSizes[k] == g2.BlockSizes[k]
+	//@ assert len(g1.BlockStarts) == len(g2.BlockStarts) && forall k int :: 0 <= k && k < len(g1.BlockStarts) ==> g1.BlockStarts[k] == g2.BlockStarts[k]
+	_, _, _, _ = g1, e1, g2, e2
+}
